@@ -48,6 +48,7 @@ class Ctx:
         self.dist = collections.Counter()
         self.disagreements = []
         self.pred_failures = []
+        self.fail_by_key = {}
         self.traces = 0
         self.pred_evals = 0
         self.validation_runs = 0
@@ -100,7 +101,8 @@ class Ctx:
         self.pred_evals += 1
         if not ok:
             self.dist['PREDFAIL:' + suite] += 1
-            if len(self.pred_failures) < 200:
+            self.fail_by_key[key] = self.fail_by_key.get(key, 0) + 1
+            if self.fail_by_key[key] <= 20:
                 self.pred_failures.append({'suite': suite, 'case': case, 'what': what, 'key': key,
                                            'detail': detail})
         return ok
